@@ -170,6 +170,9 @@ class Env:
         self.gen = gen
         self.scenario = scenario
         self.loop = vloop.VLoop()
+        if scenario.get("eager"):
+            # applications that run their loop with the eager task factory (Python 3.12): a new task starts running inside create_task()
+            self.loop.set_task_factory(asyncio.eager_task_factory)
         self.net = vloop.Net(self.loop)
         self.loop.net = self.net
         self.net.mode = "refuse" if scenario.get("refuse_until") else "accept"
